@@ -254,3 +254,55 @@ func VerifC04Rules() {
 	}
 	verifCover("end")
 }
+
+// VerifC04AfterChange: the rewriters applied to a line are the ones configured *when the line is handed over*.
+// The same name is dispatched before and after one runtime change of the rewriter list (a rule deleted, a rule
+// added, nothing); the second line must be rewritten by exactly the rules then configured, whatever was
+// forwarded for that name earlier. Two literal rules to start with; the name has 2 free bytes from {a,b,c,d}.
+func VerifC04AfterChange() {
+	t := verifNewTable(m20.NoneLegacy, m20.NoneM20, false)
+	all, _ := matcher.New("", "", "", "", "", "")
+	r := &verifCapRoute{key: "r", m: all}
+	t.AddRoute(r)
+	type rule struct{ old, nw string }
+	rules := []rule{{"a", "x"}, {"b", "yy"}}
+	for _, ru := range rules {
+		rw, err := rewriter.New(ru.old, ru.nw, "", -1)
+		if err != nil {
+			panic(err)
+		}
+		t.AddRewriter(rw)
+	}
+	name := verifBytes("name", 2)
+	for _, b := range name {
+		verifAssume(b >= 'a' && b <= 'd')
+	}
+	mkline := func(ts string) []byte { return append(append([]byte{}, name...), []byte(" 1 "+ts)...) }
+	spec := func(ts string) string {
+		out := append([]byte{}, name...)
+		for _, ru := range rules {
+			out = bytes.Replace(out, []byte(ru.old), []byte(ru.nw), -1)
+		}
+		return string(out) + " 1 " + ts
+	}
+	t.Dispatch(mkline("1"))
+	verifAssert(len(r.got) == 1 && string(r.got[0]) == spec("1"), "line-rewritten-by-the-configured-rules")
+	switch verifChoice("change", 4) {
+	case 0:
+		verifAssert(t.DelRewriter(0) == nil, "delrewriter-ok")
+		rules = rules[1:]
+	case 1:
+		verifAssert(t.DelRewriter(1) == nil, "delrewriter-ok")
+		rules = rules[:1]
+	case 2:
+		rw, _ := rewriter.New("c", "z", "", -1)
+		t.AddRewriter(rw)
+		rules = append(rules, rule{"c", "z"})
+	}
+	t.Dispatch(mkline("2"))
+	verifAssert(len(r.got) == 2, "second-line-forwarded")
+	if len(r.got) == 2 {
+		verifAssert(string(r.got[1]) == spec("2"), "line-after-a-change-rewritten-by-the-rules-configured-then")
+	}
+	verifCover("end")
+}
